@@ -21,6 +21,14 @@ theorem change_class_is_model [DecidableEq α] (null : α) (e : DExt κ α)
       errV ((changeClassK null (e.shp none) ks new).map toDict) :=
   Src.change_class_eq null e h3 h5 hpos ks hks new hn
 
+/-- **the reclassification `_insert` applies to a key before inserting, as written in dcmmeta.py, is the model's `reclassifyK`** -/
+theorem reclassify_is_model [DecidableEq α] (null : α) (e : DExt κ α)
+    (h3 : 3 ≤ e.shape.length) (h5 : e.shape.length ≤ 5) (hpos : ∀ x ∈ e.shape, 0 < x) (hsl : e.sliceDim.isSome = true)
+    (ks : KeyState α) (hks : ∀ c v, ks = some (c, v) → c ∈ validClasses e.shp ∧ mult e.shp c ≠ 0) (oc : Cls) :
+    Py.reclassify null e.shape (e.sliceDim.map fun d => e.shape.getD d 1) (toDict ks) (contentOf' e) oc =
+      errV ((reclassifyK null e.shp ks oc).map toDict) :=
+  Src.reclassify_eq null e h3 h5 hpos hsl ks hks oc
+
 /-- **`_insert_slice` as written in dcmmeta.py is the model's `insertSliceK`** on the dictionaries of one key: constants that differ
     become per-slice values of the first base present (time, vector, global), time slices are appended, everything else goes
     through global slices with the new slice interleaved into every volume -/
